@@ -446,6 +446,7 @@ def judge_records(ctx, family, module, cfg, recs, shards=None, timeout=900, env=
         raise Machinery("no records to judge")
     if shards is None:
         shards = 1 if n < 4000 else min(8, NCPU // 2)
+    shards = max(shards, (n + 39999) // 40000)      # a shard of more than 40 000 records does not fit the judge's heap
     shards = max(1, min(shards, n))
     per = (n + shards - 1) // shards
     jobs = []
@@ -459,9 +460,11 @@ def judge_records(ctx, family, module, cfg, recs, shards=None, timeout=900, env=
         p = os.path.join(d, "%s-%02d-%d.ndjson" % (module, ctx._tlc_n, s))
         write_ndjson(p, part)
         jobs.append((lo, p))
-    workers = max(1, NCPU // len(jobs))
+    # all shards that run at the same time stay below 32 GB of heap: at most `par` TLC processes of `heap` each
     if heap is None:
-        heap = "%dg" % max(2, min(8, 32 // len(jobs)))      # all shards together stay below 32 GB
+        heap = "6g"
+    par = max(1, min(len(jobs), 32 // max(1, int(heap.rstrip("g")))))
+    workers = max(1, NCPU // par)
     bad = {}
     gen = dist = 0
 
@@ -472,7 +475,7 @@ def judge_records(ctx, family, module, cfg, recs, shards=None, timeout=900, env=
         return lo, run_tlc(ctx, family, module, cfg, workers=workers, env=e, timeout=timeout, heap=heap,
                            files=extra_files)
 
-    with _cf.ThreadPoolExecutor(max_workers=len(jobs)) as ex:
+    with _cf.ThreadPoolExecutor(max_workers=par) as ex:
         for lo, r in ex.map(one, jobs):
             tlc_must_finish(r, "%s/%s" % (family, module))
             gen += r.generated
